@@ -43,6 +43,10 @@ type ClientConn struct {
 
 	writeMu sync.Mutex // serializes writes of whole transactions to Connection
 
+	// AwaitingAgreement is set while a client of the 1.5+ login flow has logged in but not yet sent TranAgreed: it has
+	// no name yet and has not been announced to the others, so it is not part of the user list either.
+	AwaitingAgreement bool
+
 	// Transactions that go through the server's outbox reach the connection in the order they were queued: every
 	// queued transaction gets a gate, a mutex that stays locked until the transaction has been written, and waits for
 	// the gate of the one queued before it.  sendTail is the gate of the transaction queued last; only the dispatcher
